@@ -33,8 +33,12 @@ func vC19Pipe(L int) {
 	vAssume(n <= int64(L)+1)
 	subsN := 1 + vChoice("subs", 2)
 
-	src := &vSource{cold: true, script: in}
-	ref := &vSource{cold: true, script: in}
+	// hot: the source emits after the Subscribe call has returned (a subject, a channel, a timer) —
+	// a chain that terminates by itself (Take) then does so from inside a later Next, not inside
+	// Subscribe
+	hot := vChoice("hot", 2) == 1
+	src := &vSource{cold: !hot, script: in}
+	ref := &vSource{cold: !hot, script: in}
 	var obs ro.Observable[int64]
 	var plain ro.Observable[int64]
 	var col prometheus.Collector
@@ -65,6 +69,22 @@ func vC19Pipe(L int) {
 		inBefore := src.subs
 		obs.SubscribeWithContext(ctx, vObs(got, vFlatInt))
 		plain.SubscribeWithContext(ctx, vObs(want, vFlatInt))
+		hotIn := 0
+		if hot {
+			l0, r0 := src.live, ref.live
+			for _, st := range in {
+				// a hot source emits only to a subscriber it still has
+				if src.live == l0 {
+					if st.kind == vkNext {
+						hotIn++
+					}
+					src.emit(st)
+				}
+				if ref.live == r0 {
+					ref.emit(st)
+				}
+			}
+		}
 		vCheckGrammar("prometheus pipe", got)
 		vSameEvents("prometheus pipe", got.evs, want.evs)
 		vAssert(src.subs-inBefore == 1, "prometheus pipe: the source was not subscribed exactly once per Subscribe")
@@ -76,7 +96,11 @@ func vC19Pipe(L int) {
 		}
 		totalOut += got.nexts()
 		// values the source emitted before the chain terminated (Take may cut the script short)
-		totalIn += vSourceNexts(in, arity, n)
+		if hot {
+			totalIn += hotIn
+		} else {
+			totalIn += vSourceNexts(in, arity, n)
+		}
 	}
 	pc := col.(*prometheusCollector)
 	if licence {
